@@ -90,6 +90,9 @@ SyncEnd == /\ cpc = "sync" /\ creg.k >= S /\ cpc' = "done"
 AllDone == spc = "next" /\ sreg.e = Len(Events) /\ cpc = "done"
 Next == SendStart \/ SendVisit \/ SendLoopEnd \/ SendEnd \/ ChurnStart \/ SyncWrite \/ SyncEnd \/ (AllDone /\ UNCHANGED vars)
 
+\* (C10) state constraint selecting the sequential histories: the producer is not inside its fan-out loop while the list is being rebuilt
+Sequential == (spc \in {"loop", "end"}) => (cpc \in {"start", "done"})
+
 \* ---- properties
 Throughout == IF Churn = "remove" THEN Initial \ {CHOOSE x \in Initial : \A y \in Initial : x <= y} ELSE Initial
 CountIn(s, v) == Cardinality({i \in 1..Len(s) : s[i] = v})
